@@ -66,9 +66,30 @@ def case_singlet(log, order, method, shape="complex"):
         for a in (a0, a1):
             assume(1 + sum(b * a ** (i + 1) for i, b in enumerate(bs)), ">0")
         gs = realnp.array([constrained("g%d" % k, 2, (1, 1)) for k in range(order)], dtype=object)
-        with rge_env((ns, sg), bet, bs, roots):
-            E = sg.dispatcher((order, 0), m, gs, a1, a0, SR.var("nf"), 2, (order + 1, 0))
-        _vE(log, E, (1, 1), "singlet %s order %d" % (method, order), "singlet.%s:%d:sumrule" % (method, order), rp)
+        its = 2 if method.startswith("ITERATE") else 1
+        via_exponent = method.startswith("DECOMPOSE") and order >= 3
+        if via_exponent:
+            # exp_matrix_2D of a matrix with a zero eigenvalue needs the root of a perfect square that contains the
+            # algebraic atoms of the exact NNLO/N3LO integrals; the sum rule is decided on the exponent instead:
+            # v.M == 0  =>  v.exp(M) == v  (exp_matrix_2D is the matrix exponential: C23)
+            rec = AdRecorder(sg.ad)
+            saved = sg.ad
+            sg.ad = rec
+        try:
+            with rge_env((ns, sg), bet, bs, roots):
+                E = sg.dispatcher((order, 0), m, gs, a1, a0, SR.var("nf"), its, (order + 1, 0))
+        finally:
+            if via_exponent:
+                sg.ad = saved
+        if via_exponent:
+            if not rec.calls:
+                raise EngineError("no matrix exponential recorded")
+            for n_, M in enumerate(rec.calls):
+                for j in range(2):
+                    vd = prove_zero(Cx.lift(M[0, j] + M[1, j]), "singlet %s order %d: column %d of v.M == 0 for the exponent handed to exp_matrix_2D (call %d)" % (method, order, j, n_))
+                    log.decide(vd, key="singlet.%s:%d:sumrule" % (method, order), replay=rp, sampler=_sampler)
+        else:
+            _vE(log, E, (1, 1), "singlet %s order %d" % (method, order), "singlet.%s:%d:sumrule" % (method, order), rp)
         log.twin("domain")
         log.collect_ctx()
 
@@ -307,7 +328,7 @@ def replay_ome(point, morder, method):
 def main():
     chk = H.Check("C11")
     thorough = H.tier() == "thorough"
-    chk.bounds = ["singlet: all 8 methods, orders 1-3 (quick) and 4 (thorough), symbolic beta_k, momentum-conserving symbolic gamma_k; iterate/perturbative with 2 iterations",
+    chk.bounds = ["singlet: all 8 methods, orders 1-3 (quick) and 4 (thorough), symbolic beta_k, momentum-conserving symbolic gamma_k; iterate with 2 iterations, perturbative with 1; decompose at orders >= 3 decided on the exponent handed to exp_matrix_2D (v.M == 0) together with C23",
                   "QED singlet iterate: 2 symbolic steps, orders (1,1),(2,1) (quick) + (2,2),(3,2) (thorough), exp_matrix by its series through eps^3",
                   "scale variations: expanded singlet (QCD, QED) and exponentiated, orders 1-4 / (1..3,1..2), nf 3-6; alpha_em running on and off",
                   "build_ome: forward, expanded inverse, exact inverse; matching orders 0-3; 3x3 symbolic A_k"]
